@@ -1016,6 +1016,18 @@ func (e *CEnv) call(n *ast.CallExpr) *Val {
 			}
 		}
 		e.errf("bytype: no case for type %s", have)
+	case "isbound":
+		// isbound(f, "method", recv): f is the method value recv.method
+		if len(n.Args) != 3 {
+			e.errf("isbound(f, name, recv)")
+		}
+		fv := e.eval(n.Args[0])
+		name := e.strArg(n.Args[1])
+		rv := e.eval(n.Args[2])
+		if fv.Cl == nil || fv.Cl.Fn == nil || len(fv.Cl.Binds) != 1 || !strings.HasSuffix(strings.TrimSuffix(fv.Cl.Fn.Name(), "$bound"), name) || !strings.HasSuffix(fv.Cl.Fn.Name(), "$bound") {
+			return boolVal(tFalse)
+		}
+		return boolVal(eq(e.ptrTerm(fv.Cl.Binds[0]), e.ptrTerm(rv)))
 	case "sameslice":
 		a := e.args(n, 2, "sameslice")
 		if (a[0].K != KSlice && a[0].K != KString) || a[0].K != a[1].K {
